@@ -16,7 +16,7 @@ KINDS = {0: "single-thread program", 1: "x-thread: handle awaited elsewhere",
 
 
 def spawn_op(rng):
-    mode = rng.choice([0, 0, 1, 1, 1])
+    mode = rng.choice([0, 0, 1, 1, 1, 2])
     n = rng.choice([0, 0, 1, 1, 2, 3, 5])
     end = rng.choice([0, 0, 0, 1, 2])
     return [1, mode, n, end]
@@ -64,6 +64,28 @@ def program(rng, adversarial):
     return [0, mi, len(ops)] + flat
 
 
+def final_wake_program(rng):
+    """template: a task that is woken during the very poll in which it completes, with two or
+    more runnable tasks queued behind it (hot list surgery at removal), then more ticks"""
+    mi = rng.choice([2, 3, 4, 61, 61])
+    ops = []
+    lead = rng.randrange(0, 2)
+    for _ in range(lead):
+        ops.append([1, rng.choice([0, 1]), rng.choice([1, 2, 4]), 0])
+    ops.append([1, 2, rng.choice([0, 0, 1, 2]), rng.choice([0, 0, 1])])
+    for _ in range(rng.randrange(2, 5)):
+        ops.append([1, rng.choice([1, 1, 0, 2]), rng.choice([2, 3, 5]), rng.choice([0, 0, 1])])
+    nt = len(ops)
+    for _ in range(rng.randrange(3, 8)):
+        ops.append([4, 0, 0, 0])
+        if rng.random() < 0.4:
+            ops.append([2, rng.randrange(0, nt), 0, 0])
+        if rng.random() < 0.2:
+            ops.append([5, rng.randrange(0, nt), 0, 0])
+    flat = [x for o in ops for x in o]
+    return [0, mi, len(ops)] + flat
+
+
 def xthread(rng):
     k = rng.choice([1, 1, 2, 2, 2, 3, 3, 4, 5, 6])
     return [k, rng.randrange(0, 12), rng.randrange(0, 4000), rng.randrange(0, 6)]
@@ -73,8 +95,11 @@ def generate(seed, n):
     rng = random.Random(seed)
     out = []
     for _ in range(n):
-        if rng.random() < 0.12:
+        r = rng.random()
+        if r < 0.12:
             out.append(xthread(rng))
+        elif r < 0.22:
+            out.append(final_wake_program(rng))
         else:
             out.append(program(rng, rng.random() < 0.35))
     return out
